@@ -6,8 +6,8 @@ from ..core import *
 from ..ops import *
 from .c04 import judge
 
-IMPORTS = ('From OFV Require Import Base.Cplx Base.Lin Sem.PauliSem Sem.FermiSem Model.SymbolicOp Model.LadderOp Check.Sectors.\n')
-NEEDS = ['Thm/C10/NumberOp', 'Check/Sectors']
+IMPORTS = ('From OFV Require Import Base.Cplx Base.Lin Sem.PauliSem Sem.FermiSem Model.SymbolicOp Model.LadderOp Check.Sectors Thm.C10.NumberIndices.\n')
+NEEDS = ['Thm/C10/NumberOp', 'Thm/C10/NumberIndices', 'Check/Sectors']
 def cNl(l): return '(' + clist([cN(int(x)) for x in l]) + ' : list N)'
 def cmat(M): return '(' + clist(['(' + clist([cC(complex(x)) for x in row]) + ' : list C)' for row in M]) + ' : list (list C))'
 def mask(bits): return sum((1 << i) for i, b in enumerate(bits) if b)
@@ -35,7 +35,7 @@ def run(ctx):
     for n in range(1, nmax + 1):
         for ne in range(0, n + 1):
             l = st.jw_number_indices(ne, n)
-            add('jw_number_indices', '(number_indices_ok %s %s %s)' % (cnat(n), cnat(ne), cNl(l)), {'call': 'jw_number_indices', 'n_electrons': ne, 'n_qubits': n}, key=(n, ne))
+            add('jw_number_indices', '(number_indices_ok %s %s %s && nlist_eqb (number_indices %s %s) %s)' % (cnat(n), cnat(ne), cNl(l), cnat(n), cnat(ne), cNl(l)), {'call': 'jw_number_indices', 'n_electrons': ne, 'n_qubits': n}, key=(n, ne))
         if n % 2 == 0:
             for sz2 in range(-n // 2, n // 2 + 1):
                 for ne in [None] + list(range(0, n + 1)):
